@@ -139,7 +139,7 @@ def run_spellings(sc):
     fv = sc["fv"]
     work = tlc.scratch("lv_c18_")
     cfg_trace = [dict(ev="setup", fv=fv, first=first_file(sc), ref=(sc["ref"] if fv.get("hasref") else -1), start=sc["start"], stop=sc["stop"], dt=sc["dt"], outper=sc["dt"] * sc["ops"])]
-    pair = [dict(ev="setup", kinds=["same", "same"])]
+    pair = [dict(ev="setup", kinds=[] if fv["diffusion"] else ["same", "same"])]
     try:
         write_files(sc, work)
         with open(os.path.join(work, "r.rls"), "w") as f:
@@ -167,6 +167,8 @@ def run_spellings(sc):
                 cfg_trace.append(dict(ev="config", kind=kind, ok=True, proj=project(conf, work)))
             except BaseException as e:  # noqa: BLE001
                 cfg_trace.append(dict(ev="config", kind=kind, ok=False, proj={}, what=f"{type(e).__name__}: {str(e)[:80]}"))
+            if fv["diffusion"]:      # random walk: the three outputs cannot be identical, the spellings are compared as configurations only
+                continue
             err = None
             try:
                 main(path, loglevel=logging.CRITICAL)
@@ -222,6 +224,8 @@ def scenario(rng):
             base["naming"] = "unpadded"
             # the later files carry a different grid (pm, pn), so taking the grid from another file than the first changes the run
             base["grid_variant_in_later_files"] = True
+    if rng.random() < 0.25:
+        fv["diffusion"] = rng.choice([1, 2, 5])
     base["fv"] = fv
     i1 = rng.randrange(max(6, base["imax"] - 3), base["imax"])
     j1 = rng.randrange(max(6, base["jmax"] - 3), base["jmax"])
@@ -243,7 +247,7 @@ def run(tier, seed):
     rep.add_tv("spellings-output", "PairTrace", scs, pairs, tlc.validate_traces("PairTrace", pairs, batch_events=400), family=FAMILY_P)
     rep.nontrivial = len({repr(sorted(s["fv"].items())) for s in scs})
     rep.rule = ("random feature vectors (discrete/continuous release, extra int column as particle variable, particle variables in the output, grid section explicit / "
-                "without file name / omitted, sub-rectangle, single or wildcard multi-file forcing, optional sections present-empty or omitted, EF/RK2/RK4) over "
+                "without file name / omitted, sub-rectangle, single or wildcard multi-file forcing, optional sections present-empty or omitted, EF/RK2/RK4, horizontal diffusion) over "
                 "random small scenarios with strong flows (particles reach the sub-rectangle boundary); non-trivial = distinct feature vectors")
-    rep.assumptions = ["the three documents are written by the harness from one feature vector (TOML via a minimal writer)", "diffusion off (outputs must be identical)"]
+    rep.assumptions = ["the three documents are written by the harness from one feature vector (TOML via a minimal writer)", "with diffusion on (a quarter of the feature vectors) the three spellings are compared as configurations only: the random walk makes outputs differ between any two runs"]
     return rep
